@@ -223,6 +223,10 @@ def isinstance_model(it, v, spec):
         return any(issubclass(v.cls, c) for c in classes)
     if isinstance(v, (FuncVal, BoundMethod, Builtin, ClassVal, SliceVal, GenVal, LazyGen)):
         return False
+    if S.is_term(v):
+        o = it.deref(v)
+        if isinstance(o, SymObj) and not is_plain_box_cls(o.cls):
+            return any(issubclass(o.cls, c) for c in classes)  # (before reading through: an object of a dict / list subclass)
     vt = T(it, v)
     o = it.deref(vt)
     if isinstance(o, SymObj) and not is_plain_box_cls(o.cls):
@@ -983,6 +987,13 @@ def slice_get(it, obj, sl):
         n = z3.Length(s)
         a, b, c = norm_slice(it, sl, n)
         term = None
+        cn = concrete_len(z3.simplify(s))
+        sa, sb, sc = z3.simplify(a), z3.simplify(b), z3.simplify(c)
+        if cn is not None and z3.is_int_value(sa) and z3.is_int_value(sb) and z3.is_int_value(sc) and _known(it, z3.Or(Py.is_list(obj), Py.is_tuple(obj))):
+            # a container of known length sliced at known bounds: the slice itself
+            ss = z3.simplify(s)
+            elems = [z3.simplify(ss[i]) for i in range(sa.as_long(), sb.as_long(), sc.as_long())] if sc.as_long() > 0 else [z3.simplify(ss[i]) for i in range(sa.as_long(), sb.as_long(), sc.as_long())]
+            return z3.If(Py.is_tuple(obj), S.mk_tuple(elems), S.mk_list(elems)) if not _known(it, Py.is_tuple(obj)) else S.mk_tuple(elems)
         if z3.is_int_value(c) and c.as_long() == 1:
             ln = z3.If(b > a, b - a, 0)
             sub = z3.Extract(s, a, ln)
@@ -1012,6 +1023,18 @@ def slice_get(it, obj, sl):
     if it.branch(Py.is_dict(obj)):
         it.raise_(KeyError, "slice")  # unhashable in <3.12, KeyError in 3.12: both outside every family
     it.raise_(TypeError, "object is not subscriptable")
+
+
+def dict_last_member(it, d, key):
+    """`d[key]` when d is syntactically `... + {k_last: v_last}` and key is known to be k_last (the
+    member just written) - the value itself instead of an element at a symbolic position; None otherwise."""
+    ks, vs = z3.simplify(Py.keys(d)), z3.simplify(Py.vals(d))
+    lk, lv = split_last(ks), split_last(vs)
+    if lk is None or lv is None:
+        return None
+    if _known(it, z3.Length(lk[0]) == z3.Length(lv[0])) and _known(it, S.py_eq(lk[1], key)) and _known(it, S.dict_find(lk[0], key) < 0):
+        return lv[1]
+    return None
 
 
 def dict_lookup(it, d, key):
@@ -1094,6 +1117,9 @@ def getitem(it, obj, key):
                 if it.branch(S.py_eq(z3.simplify(ks[i]), key)):
                     return z3.simplify(z3.simplify(Py.vals(obj))[i])
             it.raise_(KeyError, key)
+        m = dict_last_member(it, obj, key)
+        if m is not None:
+            return m
         j = dict_lookup(it, obj, key)
         if it.branch(j >= 0):
             it.assume(S.json_child(obj, Py.vals(obj)[j]))
@@ -1257,6 +1283,8 @@ def contains(it, container, x):
     if it.branch(Py.is_dict(c)):
         if it.branch(unhashable(x)):
             it.raise_(TypeError, "unhashable type")
+        if dict_last_member(it, c, x) is not None:
+            return z3.BoolVal(True)
         return dict_lookup(it, c, x) >= 0
     if it.branch(Py.is_str(c)):
         if not it.branch(Py.is_str(x)):
@@ -2059,6 +2087,33 @@ def _chain(it, a, k):
     return GenVal(parts)
 
 
+sorted_seq = z3.Function("sorted_seq", S.SeqPy, S.SeqPy)
+
+
+def _sorted(it, a, k):
+    """sorted(iterable) without key/reverse: an uninterpreted permutation of the items (same length;
+    a sequence of at most one item is itself).  ASSUMED not to raise: the items are mutually comparable."""
+    if k:
+        raise Unsupported("sorted() with key / reverse")
+    s = seq_of(it, a[0])
+    if s is None:
+        raise Unsupported("sorted() of this iterable")
+    r = sorted_seq(s)
+    if isinstance(a[0], IterSpec):
+        sample = z3.simplify(it.to_term(a[0].elem(z3.Int("i!probe"))))
+        if sample.decl().name() == "tuple" and concrete_len(Py.titems(sample)) is not None:
+            n_ = concrete_len(Py.titems(sample))
+            # a permutation of tuples of a known width is made of tuples of that width
+            it.elem_facts = getattr(it, "elem_facts", []) + [(r, lambda e, n_=n_: z3.And(Py.is_tuple(e), z3.Length(Py.titems(e)) == n_))]
+    it.assume(z3.Length(r) == z3.Length(s))
+    it.assume(z3.Implies(z3.Length(s) <= 1, r == s))
+    it.assumed.append("lib:sorted (uninterpreted permutation; comparability of the items assumed)")
+    for q, f in list(getattr(it, "elem_facts", [])):
+        if z3.eq(z3.simplify(q), z3.simplify(s)):
+            it.elem_facts = it.elem_facts + [(r, f)]
+    return Py.list(r)
+
+
 def _filter(it, a, k):
     fn, src = a
     if not (isinstance(fn, Builtin) and fn.name == "bool"):
@@ -2111,6 +2166,7 @@ def _table():
             id(builtins.hasattr): Builtin("hasattr", _hasattr),
             id(builtins.any): Builtin("any", _any),
             id(builtins.filter): Builtin("filter", _filter),
+            id(builtins.sorted): Builtin("sorted", _sorted),
             id(itertools.islice): Builtin("islice", _islice),
             id(itertools.tee): Builtin("tee", _tee),
             id(itertools.chain): Builtin("chain", _chain),
